@@ -33,6 +33,7 @@ type PeerSpec struct {
 	Crypto   string // listener side: auto | plain-only | auto-plain | mse-only
 	Announce string // bitfield | haveall | haves
 	Param    int
+	ReqQ     int // advertised request queue (reqq); 0 = drawn by the seeder config
 }
 
 type WebSpec struct {
@@ -92,7 +93,7 @@ func (s *Spec) peerReachable(p PeerSpec) bool {
 func (s *Spec) Describe() string {
 	var ps, ws []string
 	for _, p := range s.Peers {
-		ps = append(ps, fmt.Sprintf("%s/%s/%s/fast=%v", p.Kind, p.Crypto, p.Announce, p.Fast))
+		ps = append(ps, fmt.Sprintf("%s/%s/%s/fast=%v/p%d/q%d", p.Kind, p.Crypto, p.Announce, p.Fast, p.Param%4, p.ReqQ))
 	}
 	for _, w := range s.Webs {
 		ws = append(ws, w.Kind)
@@ -200,6 +201,11 @@ func GenSpec(r *rand.Rand, k int, mode string) *Spec {
 			s.Peers = append([]PeerSpec{{Kind: "honest", Fast: true, Ext: true, Crypto: "auto", Announce: "bitfield"}}, s.Peers...)
 		}
 	}
+	if mode == "c10" && k%8 == 3 {
+		// single-source class: nobody can rescue a request the client loses; small advertised request queues
+		s.Webs = nil
+		s.Peers = []PeerSpec{{Kind: "honest", Fast: r.Intn(2) == 0, Ext: true, Crypto: "auto", Announce: ann[r.Intn(3)], Param: r.Intn(4) + 4*r.Intn(50), ReqQ: []int{1, 1, 2, 5}[r.Intn(4)]}}
+	}
 	if mode == "c01" && r.Intn(6) == 0 {
 		s.BanProbe = true
 		s.Magnet = false
@@ -231,12 +237,16 @@ func GenSpec(r *rand.Rand, k int, mode string) *Spec {
 
 func seederCfg(p PeerSpec, ct *refpeer.Content, info []byte, r *rand.Rand) refpeer.SeederCfg {
 	cfg := refpeer.SeederCfg{Content: ct, Announce: p.Announce, Unchoke: "on-interested", Metadata: info, ReqQ: []int{0, 1, 5, 250, 2000}[r.Intn(5)]}
+	if p.ReqQ != 0 {
+		cfg.ReqQ = p.ReqQ
+	}
 	np := ct.NumPieces
 	switch p.Kind {
 	case "honest":
 		if p.Param&1 != 0 {
 			cfg.ChokeEvery = 1 + (p.Param/4)%5
 			cfg.ChokePause = time.Duration(3+(p.Param/4)%30) * time.Millisecond
+			cfg.LateServe = p.Param&2 != 0
 		}
 	case "corrupt-one":
 		bad := p.Param % np
